@@ -120,6 +120,16 @@ func Universe(name string, size string, seed int64) []RawKey {
 		}
 		return u
 
+	case "lfan":
+		// six continuations below a 12-byte shared path (longer than the inline limit): a 16-slot node under an
+		// optimistic path, shrinking back to 4 slots
+		var u []RawKey
+		for _, c := range []byte{'a', 'b', 'c', 'd', 'e', 'f'} {
+			u = append(u, rkb(append([]byte(p10+"xy"), c)...))
+		}
+		u = append(u, rp(p10+"xy"), rp(p10+"xZa"), rp(p10+"xyg"))
+		return u
+
 	case "fan64":
 		// 64 one-byte keys: a fill/drain cycle crosses 4 -> 16 -> 48 -> 256 (at 49) and back (37, 12, 3) in ~150 operations
 		var u []RawKey
@@ -203,9 +213,10 @@ func Universe(name string, size string, seed int64) []RawKey {
 		return u
 
 	case "han":
-		// 40 consecutive Han characters (one fan node with > 16 children in the collation key space) plus a few others
+		// 64 consecutive Han characters (one fan node passing through every size class in the sort-key space) plus a few others
 		var u []RawKey
-		for c := 0x4e2d; c < 0x4e2d+40; c++ {
+		n := 64 // more than 48 siblings: the hand-written copy reaches its 256-slot class
+		for c := 0x4e2d; c < 0x4e2d+n; c++ {
 			u = append(u, rk(string(rune(c))))
 		}
 		for _, w := range []string{"a", "b", "日本", "中文"} {
